@@ -94,7 +94,93 @@ def test_lin():
     _expect(S[0][2] and not S[2][0] and S[1][1], "mat_star bool")
 
 
-TESTS = [test_lin, test_inside_vs_bruteforce, test_closed_forms]
+def _lcg(seed):
+    x = seed
+    while True:
+        x = (x * 6364136223846793005 + 1442695040888963407) % 2**64
+        yield x >> 33
+
+
+def _rand_acyclic(rng, n, k, transducer):
+    from vf import autoref
+
+    Q = model("QQ")
+    arcs = []
+    for _ in range(k):
+        q = next(rng) % n
+        r = next(rng) % n
+        if q == r:
+            continue
+        q, r = min(q, r), max(q, r)
+        w = Fraction(1 + next(rng) % 5, 1 + next(rng) % 4)
+        lab = ["a", "b", ""]
+        if transducer:
+            arcs.append((q, lab[next(rng) % 3], lab[next(rng) % 3], r, w))
+        else:
+            arcs.append((q, lab[next(rng) % 3], r, w))
+    start = {0: Fraction(1), (next(rng) % n): Fraction(1, 2)}
+    stop = {n - 1: Fraction(2), (next(rng) % n): Fraction(1, 3)}
+    return (autoref.RT if transducer else autoref.RA)(Q, n, start, stop, arcs)
+
+
+def _paths_fst(T, x, y):
+    "brute force over accepting paths of an acyclic transducer"
+    out = {}
+    for q, a, b, r, w in T.arcs:
+        out.setdefault(q, []).append((a, b, r, w))
+    tot = Fraction(0)
+    stack = [(q, 0, 0, w) for q, w in T.start.items()]
+    while stack:
+        q, i, j, w = stack.pop()
+        if i == len(x) and j == len(y) and q in T.stop:
+            tot += w * T.stop[q]
+        for a, b, r, v in out.get(q, ()):
+            if a != "" and not (i < len(x) and x[i] == a):
+                continue
+            if b != "" and not (j < len(y) and y[j] == b):
+                continue
+            stack.append((r, i + (a != ""), j + (b != ""), w * v))
+    return tot
+
+
+def test_autoref():
+    from vf import autoref, gen
+
+    rng = _lcg(12345)
+    S2 = gen.all_strings(["a", "b"], 2)
+    for t in range(12):
+        A = _rand_acyclic(rng, 4, 7, False)
+        W = autoref.Weights(A)
+        for xs in gen.all_strings(["a", "b"], 3):
+            _expect(W(xs) == autoref.path_sum_bruteforce(A, xs), "automaton weight vs path enumeration")
+        tot = sum(autoref.path_sum_bruteforce(A, xs) for xs in gen.all_strings(["a", "b"], 4))
+        _expect(autoref.total(A) == tot, "automaton total vs path enumeration")
+    for t in range(10):
+        T = _rand_acyclic(rng, 3, 6, True)
+        U = _rand_acyclic(rng, 3, 6, True)
+        for x in S2:
+            for y in S2:
+                r = autoref.rel(T, x, y)
+                _expect(r == _paths_fst(T, x, y), "rel vs path enumeration")
+                _expect(r == autoref.rel_lattice(T, x, y), "rel vs lattice solve")
+        for x in S2[:3]:
+            for z in S2[:3]:
+                want = sum(_paths_fst(T, x, y) * _paths_fst(U, y, z) for y in gen.all_strings(["a", "b"], 3))
+                _expect(autoref.compose_ref(T, U, x, z) == want, "compose_ref vs brute force")
+    # equivalence: permutation + split is equivalent, a changed weight is not
+    Q = model("QQ")
+    A = autoref.RA(Q, 2, {0: Fraction(1)}, {1: Fraction(1)}, [(0, "a", 1, Fraction(1, 2)), (1, "b", 1, Fraction(1, 3)), (0, "", 1, Fraction(1, 4))])
+    B = autoref.RA(Q, 3, {2: Fraction(1)}, {0: Fraction(1), 1: Fraction(1)}, [(2, "a", 0, Fraction(1, 4)), (2, "a", 1, Fraction(1, 4)), (0, "b", 0, Fraction(1, 3)), (1, "b", 0, Fraction(1, 3)), (2, "", 1, Fraction(1, 4))])
+    _expect(autoref.equivalent(A, B) is None, "equivalent: split pair")
+    C = autoref.RA(Q, 2, {0: Fraction(1)}, {1: Fraction(1)}, [(0, "a", 1, Fraction(1, 2)), (1, "b", 1, Fraction(1, 2)), (0, "", 1, Fraction(1, 4))])
+    w = autoref.equivalent(A, C)
+    _expect(w == ("a", "b") or w == ("b",), f"equivalent: shortest witness, got {w}")
+    _expect(autoref.hankel_rank(A) == 2 and autoref.hankel_rank(B) == 2, "hankel rank")
+    Z = autoref.RA(Q, 2, {0: Fraction(1)}, {}, [(0, "a", 1, Fraction(1))])
+    _expect(autoref.hankel_rank(Z) == 0 and autoref.equivalent(Z, autoref.RA(Q, 0, {}, {}, [])) is None, "empty language")
+
+
+TESTS = [test_lin, test_inside_vs_bruteforce, test_closed_forms, test_autoref]
 
 
 def main():
